@@ -156,7 +156,11 @@ def marshal(
                     # all bytes were depleted
                     return obj
             except ConstraintViolatedError as error:
-                bytes_remaining = bytes(itertools.chain((byte,), buffer_iter))
+                if buffer_depleted:
+                    # no look-ahead byte is outstanding: byte still holds the last byte already sent
+                    bytes_remaining = b""
+                else:
+                    bytes_remaining = bytes(itertools.chain((byte,), buffer_iter))
                 error.set_bytes_remaining(bytes_remaining)
                 raise error
 
